@@ -246,3 +246,43 @@ func VerifC17Set() {
 	}
 	vnd.Cover("C17.set.end")
 }
+
+func init() { verifEntries["VerifC17Break"] = VerifC17Break }
+
+// VerifC17Break: iteration over Map/Set sequences can be stopped early (a
+// partially consumed iteration is part of "iteration ... consistent with it").
+func VerifC17Break() {
+	n := vnd.IntRange("n", 0, 3)
+	s := Set[string]{}
+	m := Map[string, uint64]{}
+	for i := 0; i < n; i++ {
+		k := string([]byte{byte('a' + i)})
+		s = s.Set(k)
+		m = m.Set(k, uint64(i))
+	}
+	cnt := 0
+	for range s.All() {
+		cnt++
+		break
+	}
+	vnd.Assert(cnt == vnd.IteInt(n > 0, 1, 0), "C17.set.break")
+	cnt = 0
+	for range m.All() {
+		cnt++
+		break
+	}
+	vnd.Assert(cnt == vnd.IteInt(n > 0, 1, 0), "C17.map.break")
+	cnt = 0
+	for range m.Prefix("") {
+		cnt++
+		break
+	}
+	vnd.Assert(cnt == vnd.IteInt(n > 0, 1, 0), "C17.map.prefix.break")
+	cnt = 0
+	for range m.LowerBound("") {
+		cnt++
+		break
+	}
+	vnd.Assert(cnt == vnd.IteInt(n > 0, 1, 0), "C17.map.lowerbound.break")
+	vnd.Cover("C17.break.end")
+}
